@@ -203,7 +203,19 @@ def norm(v):
         f = norm(v[2][1])
         if isinstance(f, tuple) and f and f[0] == 'fn' and re.match(r'^[A-Z]', f[1].split('::')[-1]) and '<' not in f[1]:
             # x.map(Ctor) read as the payload: Ctor(x)
-            return ('agg', 'adt:' + f[1], (norm(v[2][0]),))
+            return norm(('agg', 'adt:' + f[1], (v[2][0],)))
+        if isinstance(f, tuple) and f and (f[0] == 'fn' or (f[0] == 'lam' and f[1] == 1)):
+            return norm(_apply(f, norm(v[2][0])))        # x.map(f) read as the payload: f(x)
+    if v[0] == 'call' and len(v[2]) == 1 and re.search(r'(sync::Arc|boxed::Box|rc::Rc)(::<[^>]*>)?::new$', v[1]):
+        return norm(v[2][0])                              # Arc::new(x): the same value behind a pointer
+    if v[0] == 'call' and v[1].split('::')[-1] == 'transpose' and len(v[2]) == 1 and isinstance(v[2][0], tuple) and v[2][0] and v[2][0][0] == 'agg' \
+            and v[2][0][1].endswith(('Option::Some', 'Option::None')):
+        return norm(v[2][0])                              # Some(r).transpose() read as the payload: Some(r)
+    if v[0] == 'agg' and v[1].startswith('adt:') and not v[1].endswith(('Result::Ok', 'Result::Err')):
+        # a literal Ok(x) stored inside a node is the carrier of a payload that was taken with `?`
+        kids = tuple((k[2][0] if (isinstance(k, tuple) and k and k[0] == 'agg' and k[1].endswith('Result::Ok') and len(k[2]) == 1) else k) for k in v[2])
+        if kids != v[2]:
+            return norm((v[0], v[1], kids) + v[3:])
     if v[0] == 'agg' and v[1].startswith('closure:') and not v[2]:
         e = _eta(v[1][8:])
         if e is not None:
@@ -280,7 +292,7 @@ def outcome(kind, ret):
     return kind.lower()
 
 
-ACCESSORS = r"^(<.* as miniscript::iter::TreeLike>::as_node|<types::\w+ as types::TypeDeconstructible>::\w+|types::TypeDeconstructible::is_unit|parse::MatchPattern::as_\w+|pattern::BasePattern::(as_identifier|is_ignore)|types::AliasedType::as_(alias|builtin)|types::UIntType::two_n|value::UIntValue::(get_type|is_of_type)|<value::UIntValue as std::convert::From<(u\d+|num::U256)>>::from|<types::BuiltinAlias as std::str::FromStr>::from_str|ast::Program::analyze::\{closure#\d+\}|ast::analyze_named_module::\{closure#\d+\})$"
+ACCESSORS = r"^(<(types|value|pattern|num|str)::[\w:]+(<[^>]*>)? as std::convert::(From|TryFrom)<.*>>::(from|try_from)(::\{closure#\d+\})*|<.* as miniscript::iter::TreeLike>::as_node|<types::\w+ as types::TypeDeconstructible>::\w+|types::TypeDeconstructible::is_unit|parse::MatchPattern::as_\w+|pattern::BasePattern::(as_identifier|is_ignore)|types::AliasedType::as_(alias|builtin)|types::UIntType::two_n|value::UIntValue::(get_type|is_of_type)|<value::UIntValue as std::convert::From<(u\d+|num::U256)>>::from|<types::BuiltinAlias as std::str::FromStr>::from_str|ast::Program::analyze::\{closure#\d+\}|ast::analyze_named_module::\{closure#\d+\})$"
 FULL = re.compile(r'^(ast::Scope::\w+(::\{closure#\d+\})*|<(parse|str|types|value|num|error)::\w+ as std::fmt::Display>::fmt(::\{closure#\d+\})*|<.* as parse::PestParse>::parse(::\{closure#\d+\})*|<types::StructuralType as types::TypeConstructible>::\w+(::\{closure#\d+\})*|<value::StructuralValue as value::ValueConstructible>::\w+(::\{closure#\d+\})*|<value::Value as value::ValueConstructible>::\w+(::\{closure#\d+\})*|<types::ResolvedType as types::TypeConstructible>::\w+|value::destruct::\w+(::\{closure#\d+\})*|<value::StructuralValue as std::convert::From<(bool|value::UIntValue)>>::from|<types::StructuralType as std::convert::From<types::UIntType>>::from|array::\w+::<.*>::(fold|unfold|from_slice|is_complete)|<array::\w+<.*> as miniscript::iter::TreeLike>::as_node|debug::(DebugSymbols::insert|remove_excess_whitespace|CallTracker::(track_call|with_file|get_cmr|next_id_cmr)|TrackedCall::map_value)(::\{closure#\d+\})*|<A as parse::ParseFromStr>::parse_from_str|TemplateProgram::new|TemplateProgram::instantiate|CompiledProgram::new|<value::Value as std::fmt::Display>::fmt(::\{closure#\d+\})*|<parse::ExprTree<\'_> as std::fmt::Display>::fmt|types::TypeInner::<A>::display|<pattern::Pattern as std::fmt::Display>::fmt|error::Span::to_slice|<error::RichError as std::fmt::Display>::fmt|<witness::(WitnessValues|Arguments) as std::fmt::Display>::fmt|<witness::(WitnessValues|Arguments) as parse::ParseFromStr>::parse_from_str(::\{closure#\d+\})*|value::Value::parse_from_str|witness::<impl parse::ParseFromStr for types::ResolvedType>::parse_from_str)$')
 
 
@@ -543,7 +555,7 @@ SCOPE_EFFECTS = ('push_scope', 'pop_scope', 'push_main_scope', 'pop_main_scope',
 # `checks` (the operands of the `?`s passed on the path) stay in the rows for the rules that look at them; the comparison uses
 # the conditions they are rendered as (`x?` = "x is Ok"), so that `x?` and an explicit match on x give the same row
 ALL_FIELDS = ('conds', 'out', 'effects', 'value', 'trace', 'state')
-GUARD_FIELDS = ('conds', 'out', 'effects')
+GUARD_FIELDS = ('conds', 'out', 'effects', 'value')
 
 
 def row_key(r, fields=ALL_FIELDS):
